@@ -22,8 +22,12 @@ Types == { "", "/number", "/any", "/nosuch", "\"s\"", "1",
            "fn:Pair(/number)", "fn:Pair(/number, /string)", "fn:Tuple()", "fn:Tuple(/number)", "fn:Union()", "fn:Union(/number)",
            "fn:Singleton()", "fn:Singleton(1)", "fn:Fun()", "fn:Fun(/number)", "fn:opt(/a, /number)", "fn:Rel(/number)", "fn:nosuch(/number)" }
 Uses == { "none", "fact", "fact_struct", "head", "body", "negbody", "field", "pair", "member" }
-Cases == {[kind |-> "decl", arity |-> n, descr |-> d, ty |-> t, ty2 |-> t2, use |-> u] :
+\* optionally the unit is a named package (string bounds are then resolved as predicate references)
+Pkgs == {"", "Package pk!", "Package pk! Use other!"}
+Cases == {[kind |-> "decl", arity |-> n, descr |-> d, ty |-> t, ty2 |-> t2, use |-> u, pkg |-> ""] :
              n \in 0..2, d \in Descrs, t \in Types, t2 \in {"", "/number"}, u \in Uses}
+         \cup {[kind |-> "decl", arity |-> n, descr |-> d, ty |-> t, ty2 |-> "", use |-> u, pkg |-> k] :
+             n \in 1..2, d \in {"", "mode(\"+\")", "reflects(/foo)"}, t \in Types \cup {"\"other.colour\"", "\"colour\"", "\"\"", "\".\""}, u \in {"none", "fact", "body"}, k \in Pkgs \ {""}}
 Init == c = <<>>
 Next == c = <<>> /\ c' \in Cases
 Emit == c # <<>> => PrintT(<<"CASE", ToJson(c)>>)
